@@ -297,7 +297,9 @@ def cache_units():
          "static void vec_clear(void) { fv_n = 0; }\n"
          "static void vec_push(Simplex_handle sh) { __CPROVER_assert(fv_n < 2 * NSX, \"cache never grows beyond old content + one entry per simplex\"); fv[fv_n] = sh; fv_n++; }\n"
          "static bool ignore_simplex(Simplex_handle sh) { __CPROVER_assert(sh < NSX, \"handle of the range\"); return g_ign[sh]; }\n"
-         "static void vp_sort_whole(void) { g_sort_calls++; g_sort_n = fv_n; }   /* std::stable_sort / tbb::parallel_sort(begin, end, is_before_in_filtration): permutes, trusted */\n"
+         "bool g_sort_cmp_ok;\n#define VP_STR(x) #x\n"
+         "static bool vp_streq(const char* a, const char* b) { for (unsigned k = 0; k < 24; k++) { if (a[k] != b[k]) return false; if (a[k] == 0) return true; } return false; }\n"
+         "static void vp_sort_whole_s(const char* cmp) { g_sort_calls++; g_sort_n = fv_n; g_sort_cmp_ok = vp_streq(cmp, \"is_before_in_filtration\"); }   /* std::stable_sort / tbb::parallel_sort(begin, end, <comparator expression>): permutes, trusted; the comparator expression must be the caller's */\n"
          "static unsigned x_count(Simplex_handle h) { unsigned c = 0; for (size_t k = 0; k < 2 * NSX; k++) if (k < fv_n && fv[k] == h) c++; return c; }\n"
          "static size_t x_kept(void) { size_t c = 0; for (size_t k = 0; k < NSX; k++) if (k < g_nsimplex && !g_ign[k]) c++; return c; }\n"
          "size_t nondet_size(void);\n")
@@ -306,22 +308,23 @@ __CPROVER_requires(g_nsimplex <= NSX && fv_n <= NSX && g_probe < g_nsimplex && g
 __CPROVER_ensures(x_count(g_probe) == (g_ign[g_probe] ? 0 : 1))
 __CPROVER_ensures(fv_n == x_kept())
 __CPROVER_ensures(g_sort_calls == 1 && g_sort_n == fv_n)
-__CPROVER_assigns(fv, fv_n, g_sort_calls, g_sort_n)
+__CPROVER_ensures(g_sort_cmp_ok)
+__CPROVER_assigns(fv, fv_n, g_sort_calls, g_sort_n, g_sort_cmp_ok)
 """
     subs = [(r"filtration_vect_\.clear\(\);", "vec_clear();", 0), (r"filtration_vect_\.reserve\([^;]*\);", "", 0),
             (r"for \(Simplex_handle (\w+) : complex_simplex_range\(\)\) \{", r"for (size_t vp_k = 0; vp_k < g_nsimplex; vp_k++) { Simplex_handle \1 = vp_k;"),
             (r"filtration_vect_\.push_back\(", "vec_push("),
-            (r"(?:std::stable_sort|std::sort|tbb::parallel_sort)\(filtration_vect_\.begin\(\), filtration_vect_\.end\(\), is_before_in_filtration\);", "vp_sort_whole();")]
+            (r"(?:std::stable_sort|std::sort|tbb::parallel_sort)\(filtration_vect_\.begin\(\), filtration_vect_\.end\(\), ([^;]*)\);", r'vp_sort_whole_s("\1");')]
     U = []
     for tbb in (False, True):
         fn = Fn(ST, r"void initialize_filtration\(Comparator&& is_before_in_filtration, Ignorer&& ignore_simplex\) const", "initialize_filtration", con,
                 sig_subs=[(r"\(Comparator&& is_before_in_filtration, Ignorer&& ignore_simplex\)", "(void)")], subs=subs,
                 pp_defines=(("GUDHI_USE_TBB",) if tbb else ()), canary=(r"if \(ignore_simplex\((\w+)\)\) continue;", r"if (!ignore_simplex(\1)) continue;"))
-        U.append(Unit("order.cache.initialize_filtration" + (".tbb" if tbb else ""), "C03", [fn], enforce="initialize_filtration", globals_=G, unwind=2 * NSX + 2,
+        U.append(Unit("order.cache.initialize_filtration" + (".tbb" if tbb else ""), "C03", [fn], enforce="initialize_filtration", globals_=G, unwind=26,
                       route="B", bound=f"at most {NSX} simplices in the complex, at most {NSX} stale entries in the cache; which simplices are ignored is symbolic",
                       inputs=["g_nsimplex", "fv_n", "g_probe", "g_ign"], replay=replay_by_native_search,
                       harness="int main(void) {\n  g_nsimplex = nondet_size(); fv_n = nondet_size(); g_probe = nondet_size(); g_sort_calls = 0;\n  initialize_filtration();\n  __CPROVER_assert(0, \"VP_REACH\");\n  return 0;\n}\n",
-                      desc="Simplex_tree::initialize_filtration(Comparator, Ignorer)" + (" (GUDHI_USE_TBB branch)" if tbb else "") + ": whatever the cache held before, afterwards it lists every non-ignored simplex of the complex exactly once and no ignored one, and was sorted as a whole exactly once ('It always recomputes the cache, even if one already exists')"))
+                      desc="Simplex_tree::initialize_filtration(Comparator, Ignorer)" + (" (GUDHI_USE_TBB branch)" if tbb else "") + ": whatever the cache held before, afterwards it lists every non-ignored simplex of the complex exactly once and no ignored one, and was sorted as a whole exactly once, with the CALLER'S comparator, in the sequential and in the TBB branch alike ('It always recomputes the cache, even if one already exists')"))
     return U
 
 def mfnd_units():
